@@ -519,6 +519,50 @@ def _retype(site: int, w: int, other: bool, order: int, dflt: int = 0) -> bool:
     return result(ok, True)
 
 
+# ---- code-built enums: the GraphQL-visible NAME is what clients see; the internal Python value is not part of the contract
+ENUM_BASE = (("RED", 1, None), ("GREEN", "g", None), ("BLUE", (0, 0, 255), "old"))
+ENUM_EDITS = (
+    ("identity", ENUM_BASE, []),
+    ("rename-keeping-the-internal-value", (("CRIMSON", 1, None),) + ENUM_BASE[1:], [("EnumValueRemoved", "RED", True), ("EnumValueAdded", "CRIMSON", False)]),
+    ("internal-value-changed-only", (("RED", 99, None),) + ENUM_BASE[1:], []),
+    ("internal-values-swapped", (("RED", "g", None), ("GREEN", 1, None), ENUM_BASE[2]), []),
+    ("value-added", ENUM_BASE + (("PINK", "p", None),), [("EnumValueAdded", "PINK", False)]),
+    ("value-removed", ENUM_BASE[:2], [("EnumValueRemoved", "BLUE", True)]),
+    ("value-removed-and-another-takes-its-internal-value", (("RED", 1, None), ("GREEN", (0, 0, 255), None)), [("EnumValueRemoved", "BLUE", True)]),
+    ("deprecated", (("RED", 1, "why"),) + ENUM_BASE[1:], [("EnumValueDeprecated", "RED", False)]),
+    ("reordered", ENUM_BASE[::-1], []),
+)
+
+
+def enum_schema(values):
+    from py_gql.schema import Argument, EnumType, EnumValue, Field, Int, ObjectType, Schema
+    color = EnumType("Color", [EnumValue(n, v, deprecation_reason=d) for n, v, d in values])
+    return Schema(ObjectType("Query", [Field("paint", color, args=[Argument("c", color), Argument("n", Int)])]))
+
+
+def _enum_internal(e: int, flip: bool) -> bool:
+    """
+    pre: 0 <= e < len(ENUM_EDITS)
+    post: _
+    """
+    label, values, expected = pick(e, ENUM_EDITS)
+    FL = True if flip else False
+    with untraced():
+        old, new = enum_schema(ENUM_BASE), enum_schema(values)
+        if FL and not expected:
+            old, new = new, old               # symmetric cases: also the other way round
+        ch = sorted((type(c).__name__, c.message, int(c.severity)) for c in diff_schema(old, new))
+        ok = len(ch) == len(expected)
+        for cls, name, breaking in expected:
+            hit = [c for c in ch if c[0] == cls and name in c[1]]
+            ok = ok and len(hit) == 1 and (hit[0][2] >= int(SchemaChangeSeverity.BREAKING)) == breaking
+        if not [c for c in ch if c[2] >= int(SchemaChangeSeverity.BREAKING)]:
+            for q in ("{ paint(c: RED) }", "{ paint(c: GREEN) }", "{ paint(c: BLUE) }", "query ($c: Color = RED) { paint(c: $c) }"):
+                if not validate_ast(old, parse(q)).errors and validate_ast(new, parse(q)).errors:
+                    ok = False
+    return result(ok, bool(expected))
+
+
 CONDITIONS = [
     Cond(
         name="type_change", fn=_type_change, quick=100, thorough=200, per_path=30,
@@ -527,6 +571,10 @@ CONDITIONS = [
         assumptions=["oracle: output safe <=> every value of the new type is a value of the old; input safe <=> every value of the old type is accepted by the new"],
         witness={"ow": 1, "nw": 0, "same": True, "position": False},
     ),
+    Cond(name="enum_internal", fn=_enum_internal, quick=30, thorough=30,
+         bound="code-built enum whose internal values differ from the names (int, str, tuple) x 9 edits (rename keeping the internal value, internal value changed / swapped only, value added / removed / removed while another "
+               "name takes over its internal value, deprecated, reordered): changes are about NAMES only, with the right severity; no breaking change => the enum literals clients use still validate",
+         symbolic={"e": "choice: edit", "flip": "choice: direction for symmetric cases"}, witness={"e": 1, "flip": False}),
     Cond(name="identity", fn=_identity, quick=30, thorough=30, bound="base schema vs itself, 2 definition orders; corpus validity", witness={"order": 1},
          symbolic={"order": "choice"}),
     Cond(
